@@ -710,7 +710,7 @@ func finishSprint(res *hx.Result, u *universe, in *sprintInput, obs *sprintObs, 
 
 	// ---- correspondence case
 	it := newInterner()
-	tb := &tables{u: u, in: it, consts: map[int]bool{}}
+	tb := &tables{u: u, in: it, consts: map[int]bool{}, envS: session.Environment(), envM: session.MergedEnvironment()}
 	pre := canonContact(it, obs.preC)
 	kind := "KStartEmpty"
 	tcoq := "None"
@@ -792,8 +792,9 @@ func sprintCorpus() []*sprintInput {
 	seenAt := func(t string) *contactSpec {
 		return &contactSpec{Name: "Jim", Lang: "eng", Status: "active", LastSeen: t, Groups: []int{0, 1}, Fields: map[string]string{}}
 	}
+	// (since review round 2 these are correspondence cases too: the model runs them with two evaluators, run_sprint2)
 	// F6d (known finding): session environment UTC, contact in Africa/Kigali, message at 23:30 UTC = 01:30 next day there
-	tzUni := &uniSpec{MaxChars: 640, UseLoc: true, Groups: []groupSpec{{Name: "S0"}, {Name: "Seen on May 6", Query: `last_seen_on = "2024-05-06"`}}}
+	tzUni := &uniSpec{MaxChars: 640, UseLoc: true, Groups: []groupSpec{{Name: "S0"}, {Name: "Seen on May 6", Query: seenCmpQueries[4], Coq: "QLastSeenCmp 4"}}}
 	kigali := func() *contactSpec {
 		return &contactSpec{Name: "Jim", Lang: "eng", Status: "active", TZ: "Africa/Kigali", Groups: []int{0}, Fields: map[string]string{}}
 	}
@@ -827,8 +828,8 @@ func sprintCorpus() []*sprintInput {
 		// set_contact_channel with no channel on a contact whose URN names a channel the assets no longer have
 		{Universe: uniForStale(), Contact: staleC(), Trigger: "manual", Nodes: []nodeSpec{{Actions: []*modSpec{{Kind: "channel", Channel: -1}}, Wait: "msg"}, {Actions: []*modSpec{{Kind: "channel", Channel: 0}}}},
 			Resumes: []resumeSpec{{Kind: "msg", Refresh: staleC()}}},
-		{Universe: tzUni, Contact: kigali(), Trigger: "manual", Nodes: []nodeSpec{{Wait: "msg"}, {}}, Resumes: []resumeSpec{{Kind: "msg", At: "2024-05-06T23:30:00Z"}}, OracleOnly: true},
-		{Universe: tzUni, Contact: kigali(), Trigger: "manual", Nodes: []nodeSpec{{Wait: "msg"}, {Actions: []*modSpec{{Kind: "name", Text: "Bob"}}}}, Resumes: []resumeSpec{{Kind: "msg", At: "2024-05-06T23:30:00Z"}}, OracleOnly: true},
+		{Universe: tzUni, Contact: kigali(), Trigger: "manual", Nodes: []nodeSpec{{Wait: "msg"}, {}}, Resumes: []resumeSpec{{Kind: "msg", At: "2024-05-06T23:30:00Z"}}},
+		{Universe: tzUni, Contact: kigali(), Trigger: "manual", Nodes: []nodeSpec{{Wait: "msg"}, {Actions: []*modSpec{{Kind: "name", Text: "Bob"}}}}, Resumes: []resumeSpec{{Kind: "msg", At: "2024-05-06T23:30:00Z"}}},
 		// the received message is not later than the contact's last seen (12:00:00 vs 08:00:00 / 09:00:00; equal; 30 s
 		// later): msg_received still replays to the message's time, so the contact must carry exactly that time
 		{Universe: seenUni, Contact: seenAt("2024-05-06T12:00:00Z"), Trigger: "msg", Nodes: []nodeSpec{{}, {Wait: "msg"}, {}}, Resumes: []resumeSpec{{Kind: "msg"}}},
